@@ -1469,3 +1469,104 @@ def framing_order(prog, rep):
                       "the header block is everything up to and including the blank line that was found", c.where,
                       "length handed to gotheaders: %s; terminator found at %s, four bytes long" % (show(ln) if ln else "?", show(pos) if pos else "?"),
                       function=rh.name, construct="head-length")
+
+
+def announced_sizes(prog, rep, rule="W12-announced"):
+    """A number the server merely announces (Content-Length, a chunk size: whatever a parsenum_*/strto* call made of its text)
+    decides how much is read, never how much is allocated: no malloc/realloc/calloc size in http.c depends on one.  Taint over the
+    unit, flow-insensitive: assignments, compound assignments and declarations carry it from right to left (variables by identity,
+    structure members by name), a call carries it from an argument to the callee's parameter; a clamp `x = T` made only where
+    `x > T` holds leaves x what it was bounded by before.  Buffers then grow with the bytes that arrived, and a refused
+    allocation is the machine's doing, not the server's."""
+    up = "http/http.c"
+    u = prog.unit(up)
+    funcs = [f for f in u.funcs if f.file == up]
+    SRC = ("parsenum_unsigned", "parsenum_signed", "parsenum_float", "strtoul", "strtoull", "strtoumax", "strtol", "strtoll", "strtoimax", "atoi", "atol")
+    tv, tf = set(), set()          # tainted variable ids, tainted member names
+
+    def key(t):
+        """taint key of an lvalue term"""
+        while t[0] == "cast":
+            t = t[-1]
+        if t[0] == "v" and len(t) > 2:
+            return ("v", t[2])
+        if t[0] == "." and isinstance(t[2], str):
+            return ("f", t[2])
+        if t[0] == "*" and t[1][0] == "&":
+            return key(t[1][1])
+        return None
+
+    def tainted(t):
+        while t[0] == "cast":
+            t = t[-1]
+        if t[0] == "?:" and len(t) == 4 and t[1][0] in ("<", "<=", ">", ">=") and len(t[1]) == 3:
+            # the smaller of two: bounded by the untainted one
+            A, B = t[1][1], t[1][2]
+            small = (t[2], t[3]) if t[1][0] in ("<", "<=") else (t[3], t[2])       # (value when A is smaller, value when B is smaller)
+            if small == (A, B):
+                return tainted(A) and tainted(B)
+        for x in subterms(t):
+            if x[0] == "v" and len(x) > 2 and x[2] in tv:
+                return True
+            if x[0] == "." and x[2] in tf:
+                return True
+            if x[0] == "call" and x[1] in SRC:
+                return True
+        return False
+
+    def mark(k):
+        if k is None:
+            return False
+        tgt = tv if k[0] == "v" else tf
+        if k[1] in tgt:
+            return False
+        tgt.add(k[1])
+        return True
+    nsrc = 0
+    for f in funcs:
+        for e in f.all_elems():
+            if e.is_assign and e.kid(1) is not None and e.kid(1).strip() is not None and e.kid(1).strip().cls == "CallExpr" and e.kid(1).strip().callee in SRC:
+                nsrc += 1
+    changed = True
+    while changed:
+        changed = False
+        for f in funcs:
+            for e in f.all_elems():
+                if e.is_assign and e.kid(1) is not None:
+                    L, R = norm(e.kid(0)), norm(e.kid(1))
+                    if not tainted(R):
+                        continue
+                    if e.op == "=":
+                        # a clamp: x = T only where x > T
+                        clamp = any(op in (">", ">=") and Lc == L and Rc == R for cond, truth in f.edge_conds(e) for op, Lc, Rc, _, _ in cond_atoms(cond, truth)) or \
+                                any(op in ("<", "<=") and Rc == L and Lc == R for cond, truth in f.edge_conds(e) for op, Lc, Rc, _, _ in cond_atoms(cond, truth))
+                        if clamp:
+                            continue
+                    if e.op in ("-=", "/=", "%=", ">>=", "&="):
+                        continue        # makes the left side no larger than it was
+                    changed = mark(key(L)) or changed
+                elif e.cls == "DeclStmt":
+                    for d in e.decls or []:
+                        if isinstance(d, dict) and d.get("init") and tainted(norm(f.elem(d["init"]))):
+                            changed = mark(("v", d["id"])) or changed
+                elif e.cls == "CallExpr" and e.callee:
+                    g = prog.resolve(f, e.callee) if hasattr(prog, "resolve") else None
+                    if g is None or g.file != up:
+                        continue
+                    for i, a in enumerate(e.args):
+                        if a is not None and i < len(g.params) and tainted(norm(a)):
+                            changed = mark(("v", g.params[i]["id"])) or changed
+    n = 0
+    for f in funcs:
+        for c in f.calls(("malloc", "realloc", "calloc", "reallocarray")):
+            sizes = {"malloc": [0], "realloc": [1], "calloc": [0, 1], "reallocarray": [1, 2]}[c.callee]
+            n += 1
+            bad = [show(norm(c.arg(i))) for i in sizes if c.arg(i) is not None and tainted(f.expand(norm(c.arg(i))) if hasattr(f, "expand") else norm(c.arg(i)))]
+            bad += [show(norm(c.arg(i))) for i in sizes if c.arg(i) is not None and not bad and tainted(norm(c.arg(i)))]
+            rep.check(not bad, rule, "%s in %s: the size asked for does not depend on a number the server announced" % (c.text[:40], f.name), c.where,
+                      "the size `%s` derives from a number parsed out of the response (Content-Length / chunk size): a server that announces a huge body makes this "
+                      "allocation fail before a byte of it has arrived, and the request ends in the fatal path instead of the caller's callback" % (bad[0] if bad else ""),
+                      function=f.name, construct="announced-size")
+    if nsrc < 2:
+        rep.defer_broken("%s: fewer than 2 parsed numbers found in http.c" % rule)
+    return n
